@@ -1,19 +1,30 @@
 """C06 — the config string round-trips, is canonical and always parses."""
+import atexit
+import importlib
 import math
+import os
 import re
+import shutil
+import tempfile
 
-from vf import gen, probes, snap
+from vf import gen, pkgtree, probes, snap
 from vf.teq import canon
 
 ID = 'C06'
 LEVEL = 'exploration'
-RULE = ('configurations built from a random binding set (literal value trees incl. long strings, nested containers, references, macros, scoped and '
-        'module-qualified names with colliding base names, registered methods, case-variant scopes/names, non-literal values: objects, lambdas, '
-        'sets, nan/inf, complex, custom reprs that look like @x, %x, "(1, 2", \'abc\'; non-literal macro values) applied by parse text or bind_parameter in '
-        '2-4 random orders, stdlib imports in four forms, random (max_line_length > continuation_indent >= 0). Oracles: (a) config_str parses on a '
-        'cleared config and restores exactly the model\'s representable subset (own classifier), imports preserved, re-serialisation identical; '
-        '(b) identical text for every permutation; (c) parameters sorted inside sections, sections non-decreasing in the case-folded innermost name; '
-        '(d) markdown() keeps every binding line verbatim. distinct = (value-kind set, name features, width class, import forms)')
+RULE = ('configurations built from a random binding set (literal value trees incl. long strings, long bytes and long strings inside containers, nested containers, '
+        'references incl. references to methods, classes and gin.singleton, macros, constants (two sharing a base name, partial spellings, %gin.REQUIRED and the '
+        'gin.REQUIRED object), scoped and module-qualified names with colliding base names, registered methods, a class and gin.singleton as targets, case-variant '
+        'scopes/names, non-literal values: objects, lambdas, sets, nan/inf, complex, custom reprs that look like @x, %x, "(1, 2", \'abc\'; non-literal macro values) '
+        'applied by parse text or bind_parameter in 2-4 random orders, some keys bound twice (the earlier value at a random earlier point, also one equal to the final '
+        'value but of another type), stdlib imports in four forms, random (max_line_length > continuation_indent >= 0); the same set read by parse_config_file from a '
+        'file including another file and serialised with show_provenance=True; 1/8 of the cases on a freshly generated package under dynamic registration (four import '
+        'forms per module, value shapes as above, references to dynamically registered objects, macros, programmatic bindings after the parse, decorator-registered '
+        'configurables bound programmatically, 2-3 orders, random widths) and 1/8 through the machinery of C19. Oracles: (a) config_str parses on a cleared config and '
+        'restores exactly the model\'s representable subset (own classifier), import statements preserved (module, from/plain form, alias), re-serialisation '
+        'identical; (b) identical text for every permutation / history / files; (c) parameters sorted inside sections, sections non-decreasing in the case-folded '
+        'innermost name, one section per configurable; (d) markdown() keeps every binding line verbatim; (e) the text with provenance comments parses to the same '
+        'configuration. distinct = (value-kind set, name features, width class, import forms)')
 TIERS = {
     'quick': {'workers': 8, 'cases': 700, 'timeout': 600},
     'thorough': {'workers': 16, 'cases': 9000, 'timeout': 3000},
@@ -24,8 +35,24 @@ REQUIRED_BUCKETS = ['value:long-string', 'value:nested', 'value:reference', 'val
                     'value:repr-looks-like-reference', 'value:repr-unbalanced', 'value:repr-looks-like-string', 'value:equal-to-literal-but-repr-is-not-one', 'value:repr-raises', 'value:complex', 'macro:literal', 'macro:nonliteral',
                     'name:module-qualified-needed', 'name:method', 'name:case-variant-scope', 'name:case-variant-configurable', 'name:case-variant-macro',
                     'width:tiny', 'width:indent0', 'width:default', 'imports:present', 'imports:from', 'imports:alias', 'perm:3+', 'roundtrip:done',
-                    'omitted:nonrepresentable', 'api:bind_parameter', 'api:text', 'registration:dynamic', 'history:registration-after-config_str']
-ORACLE_COUNTERS = ['oracle_evals', 'roundtrips', 'permutations_compared', 'markdown_checked']
+                    'omitted:nonrepresentable', 'api:bind_parameter', 'api:text', 'registration:dynamic', 'history:registration-after-config_str',
+                    # imports: the statements themselves (module, from/plain form, alias) are compared, not only the module names
+                    'imports:form-compared',
+                    # constants, gin.REQUIRED, references to methods / classes / gin.singleton, class and gin.singleton sections
+                    'value:constant', 'value:constant-base-name-shared-by-two', 'value:constant-partial-spelling', 'value:gin-required-reference',
+                    'value:gin-required-object', 'value:reference-to-method', 'value:reference-to-class', 'value:reference-to-singleton',
+                    'name:class-target', 'name:singleton-target',
+                    # values pformat splits over lines
+                    'value:long-bytes', 'value:long-string-in-container',
+                    # histories: a key bound twice (the earlier value must leave no trace), files + include, provenance comments
+                    'history:rebound-key', 'history:rebound-representable-after-nonrepresentable', 'history:rebound-nonrepresentable-after-representable',
+                    'history:rebound-equal-value-of-another-type',
+                    'api:parse_config_file', 'api:include', 'provenance:shown',
+                    # dynamic registration crossed with the rest (own generator on a generated package)
+                    'dyn:nonrepresentable-omitted', 'dyn:orders-compared', 'dyn:macro', 'dyn:reference', 'dyn:width-tiny', 'dyn:width-other', 'dyn:indent0',
+                    'dyn:roundtrip', 'dyn:programmatic-binding', 'dyn:static-configurable-bound-programmatically', 'dyn:static-configurable-module-not-imported-by-text',
+                    'dyn:imports-form-compared', 'dyn:method', 'dyn:nested-value']
+ORACLE_COUNTERS = ['oracle_evals', 'roundtrips', 'permutations_compared', 'markdown_checked', 'dyn_roundtrips', 'provenance_roundtrips']
 _S = {}
 HDR = re.compile(r'^# Parameters for (.+):$')
 
@@ -60,6 +87,26 @@ class ReprRaises:
     raise RuntimeError('this object has no repr')
 
 
+def _gin_required():
+  import gin
+  return gin.REQUIRED
+
+
+# constants: two share the base name C6KONST (so `%C6KONST` alone is ambiguous and the text must spell the module part), one value has no literal form
+# (a *reference* to it is still a literal: `%c6k.aa.C6OBJ`)
+CONSTS = {'c6k.aa.C6KONST': 7, 'c6k.bb.C6KONST': (1, 'two'), 'c6k.aa.C6UNIQ': 2.5, 'c6k.aa.C6OBJ': object()}
+CONST_SPELLINGS = ['c6k.aa.C6KONST', 'aa.C6KONST', 'bb.C6KONST', 'c6k.bb.C6KONST', 'C6UNIQ', 'aa.C6UNIQ', 'c6k.aa.C6OBJ', 'C6OBJ', 'gin.REQUIRED']
+
+
+def ensure_consts():
+  import gin
+  for name, v in CONSTS.items():
+    try:
+      gin.constant(name, v)
+    except ValueError:
+      pass      # defined already in this process
+
+
 NONLIT = {
     'object': lambda: object(),
     'lambda': lambda: (lambda: 0),
@@ -79,13 +126,15 @@ NONLIT = {
     'eq-literal-repr-trailing': lambda: EqFloat(1.5),
     'eq-literal-repr-injects': lambda: EqIntInjecting(1),
     'repr-raises': lambda: ReprRaises(),
+    'gin-required-object': _gin_required,     # gin.REQUIRED bound programmatically (the object, not the reference %gin.REQUIRED)
 }
 NONLIT_BUCKET = {'object': 'value:nonliteral-object', 'lambda': 'value:nonliteral-object', 'set': 'value:nonliteral-set', 'nan': 'value:nan-inf', 'inf': 'value:nan-inf',
                  'complex': 'value:complex', 'repr-ref': 'value:repr-looks-like-reference', 'repr-refcall': 'value:repr-looks-like-reference',
                  'repr-macro': 'value:repr-looks-like-reference', 'repr-unbalanced': 'value:repr-unbalanced', 'repr-unterminated': 'value:repr-unbalanced',
                  'repr-string': 'value:repr-looks-like-string', 'repr-junk': 'value:repr-unbalanced', 'repr-empty': 'value:repr-unbalanced',
                  'repr-newline': 'value:repr-unbalanced', 'eq-literal-repr-trailing': 'value:equal-to-literal-but-repr-is-not-one',
-                 'eq-literal-repr-injects': 'value:equal-to-literal-but-repr-is-not-one', 'repr-raises': 'value:repr-raises'}
+                 'eq-literal-repr-injects': 'value:equal-to-literal-but-repr-is-not-one', 'repr-raises': 'value:repr-raises',
+                 'gin-required-object': 'value:gin-required-object'}
 
 
 def setup(ctx):
@@ -103,25 +152,60 @@ def setup(ctx):
   mk('c6c', 'c6', api='configurable')
   mk('c6m', 'c6.m1', shape='method', cls_name='C6K')
   mk('c6m', 'c6.m2', shape='method', cls_name='C6K')     # an equally named method of an equally named class in another module
+  mk('C6Cls', 'c6.m2', shape='init', api='configurable')  # a class as the target of bindings and of references
+  ensure_consts()
   _S['P'] = P
-  _S['targets'] = ['c6.m1.c6a', 'c6.m2.c6a', 'c6.deep.m1.c6a', 'c6.m1.c6b', 'c6.m1.C6B', 'c6.c6c', 'METHOD', 'METHOD2']
+  # SINGLETON = gin's own configurable gin.singleton (parameter `constructor`, always bound in a scope)
+  _S['targets'] = ['c6.m1.c6a', 'c6.m2.c6a', 'c6.deep.m1.c6a', 'c6.m1.c6b', 'c6.m1.C6B', 'c6.c6c', 'METHOD', 'METHOD2', 'c6.m2.C6Cls', 'SINGLETON']
   _S['method'] = P[('c6.m1', 'c6m')]
   _S['method2'] = P[('c6.m2', 'c6m')]
 
 
+REFS = ['@c6b', '@c6b()', '@s/c6b()', '@m2.c6a', '@c6.m1.c6a()', '@a/b/c6c', '@C6B()']
+REFS_METHOD = ['@c6.m1.C6K.c6m', '@m2.C6K.c6m', '@s/m1.C6K.c6m']          # a method is referenced without being called
+REFS_CLASS = ['@C6Cls()', '@c6.m2.C6Cls', '@x/C6Cls()']
+REFS_SINGLETON = ['@sh/gin.singleton()', '@sh2/singleton()']
+EQUAL_TWINS = [(1, True), (True, 1), (0, False), (False, 0.0), (1.0, 1), (0, 0.0), (-0.0, 0.0), (0.0, -0.0), ((1, 2), (1.0, 2)), ([True], [1]), ({'k': 0}, {'k': False})]
+WORDS = ['lorem', 'ipsum', "qu'ote", 'dol"or', 'x' * 30]
+
+
+def gen_long(rng):
+  """Values pprint.pformat breaks over several lines: bytes longer than a few characters, long strings inside containers."""
+  def words(n):
+    return ' '.join(rng.choice(WORDS + ['n\xe9☃', 'a\nb', '#c', '\\']) for _ in range(n))
+  lb = bytes(rng.randrange(256) for _ in range(rng.choice([8, 9, 16, 33, 70])))
+  k = rng.randrange(6)
+  if k == 0:
+    return lb
+  if k == 1:
+    return [words(20), lb]
+  if k == 2:
+    return {'k': (words(30),), 'b': lb}
+  if k == 3:
+    return (words(12), [words(25)])
+  if k == 4:
+    return {words(10): lb, lb: words(3)}
+  return [lb, [lb + lb, {'deep': [words(40)]}]]
+
+
 def gen_val(rng):
-  """value spec: ['lit', v] | ['ref', text] | ['macro', name] | ['non', kind] | ['in', container-kind, spec]"""
+  """value spec: ['lit', v] | ['ref', text] | ['macro', name] | ['const', spelling] | ['non', kind] | ['in', container-kind, spec]"""
   r = rng.random()
-  if r < 0.5:
+  if r < 0.47:
     v = gen.gen_value(rng, depth=rng.choice([0, 1, 2, 3]))
-    if rng.random() < 0.12:
-      v = ' '.join(rng.choice(['lorem', 'ipsum', "qu'ote", 'dol"or', 'x' * 30]) for _ in range(rng.choice([12, 30, 60])))
+    q = rng.random()
+    if q < 0.12:
+      v = ' '.join(rng.choice(WORDS) for _ in range(rng.choice([12, 30, 60])))
+    elif q < 0.22:
+      v = gen_long(rng)
     return ['lit', v]
-  if r < 0.68:
-    return ['ref', rng.choice(['@c6b', '@c6b()', '@s/c6b()', '@m2.c6a', '@c6.m1.c6a()', '@a/b/c6c', '@C6B()'])]
-  if r < 0.76:
+  if r < 0.66:
+    return ['ref', rng.choice(REFS if rng.random() < 0.55 else REFS_METHOD + REFS_CLASS + REFS_SINGLETON)]
+  if r < 0.73:
     return ['macro', rng.choice(['c6mac', 'C6MAC', 'sc/c6mac2'])]
-  if r < 0.9:
+  if r < 0.79:
+    return ['const', rng.choice(CONST_SPELLINGS)]
+  if r < 0.91:
     return ['non', rng.choice(sorted(NONLIT))]
   inner = gen_val(rng)
   return ['in', rng.choice(['list', 'tuple', 'dict']), inner]
@@ -142,12 +226,18 @@ def iter_cases(ctx, rng, n):
         c = next(dyn)
       yield {'dynamic': c}
       continue
+    if i % 8 == 3:
+      # dynamic registration crossed with the rest of the quantifier (value shapes, orders, widths, macros, programmatic bindings)
+      yield {'dyn2': gen_dyn2(rng)}
+      continue
     nb = rng.choice([1, 2, 3, 5, 8, 12])
     binds = {}
     for _ in range(nb):
       tgt = rng.choice(_S['targets'])
       scope = rng.choice(['', '', 'a', 'A', 'a/b', 'A/b', 'a/B', 'train', 'Train', 'x/y/z'])
       prm = rng.choice(['x', 'y', 'z', 'Z', 'extra_kw'])
+      if tgt == 'SINGLETON':
+        scope, prm = rng.choice(['sh', 'sh2', 'a/sh', 'Sh']), 'constructor'
       binds[(scope, tgt, prm)] = gen_val(rng)
     macros = {}
     for m in rng.sample(['c6mac', 'C6MAC', 'sc/c6mac2', 'c6other'], rng.choice([0, 1, 2, 3])):
@@ -157,12 +247,25 @@ def iter_cases(ctx, rng, n):
                           'import collections.abc', 'from json import decoder', 'import string'], rng.choice([0, 0, 1, 2, 4]))
     mll = rng.choice([80, 80, 200, 40, 20, 10, 5, 2, 1])
     ci = rng.choice([c for c in [4, 4, 0, 1, 8, mll - 1] if 0 <= c < mll])
+    # re-binding histories: some keys are first bound to another value (at a random earlier point of every order); the last binding wins
+    pre = {}
+    if rng.random() < 0.4:
+      for pos in rng.sample(range(len(items)), rng.choice([1, 1, 2, len(items)]) if len(items) > 1 else 1):
+        pre[str(pos)] = gen_val(rng)
+        if rng.random() < 0.3:
+          # the earlier value is equal (==) to the final one but of another type / sign: it must be replaced all the same
+          a, b = rng.choice(EQUAL_TWINS)
+          pre[str(pos)], items[pos][2] = ['lit', a], ['lit', b]
     perms = []
     for _ in range(rng.choice([2, 2, 3, 4])):
       order = list(range(len(items)))
       rng.shuffle(order)
-      perms.append([order, [rng.random() < 0.5 for _ in items]])
-    yield {'items': items, 'imports': imports, 'mll': mll, 'ci': ci, 'perms': perms}
+      perms.append([order, [rng.random() < 0.5 for _ in items], [rng.random() for _ in items]])
+    case = {'items': items, 'imports': imports, 'mll': mll, 'ci': ci, 'perms': perms, 'pre': pre}
+    if rng.random() < 0.16:
+      # the same binding set read from a file that includes another file, then serialised with provenance comments
+      case['via_file'] = {'in_include': [rng.random() < 0.5 for _ in items], 'inc_at': rng.random()}
+    yield case
 
 
 def value_of(spec, cache):
@@ -172,8 +275,10 @@ def value_of(spec, cache):
     return spec[1]
   if k == 'ref':
     return gc.parse_value(spec[1])
-  if k == 'macro':
+  if k in ('macro', 'const'):
     return gc.parse_value('%' + spec[1])
+  if k == 'dref':
+    return gc.parse_value('@%s%s%s' % (spec[1] + '/' if spec[1] else '', _S['dyn_selector_of'](spec[2]), '()' if spec[3] else ''))
   if k == 'non':
     key = id(spec)
     if key not in cache:
@@ -189,8 +294,10 @@ def text_of(spec):
     return repr(spec[1]) if lit_representable(spec[1]) else None
   if k == 'ref':
     return spec[1]
-  if k == 'macro':
+  if k in ('macro', 'const'):
     return '%' + spec[1]
+  if k == 'dref':
+    return '@%s%s%s' % (spec[1] + '/' if spec[1] else '', _S['dyn_spelling'][spec[2]], '()' if spec[3] else '')
   if k == 'non':
     return None
   inner = text_of(spec[2])
@@ -218,11 +325,37 @@ def spec_representable(spec):
   k = spec[0]
   if k == 'lit':
     return lit_representable(spec[1])
-  if k in ('ref', 'macro'):
+  if k in ('ref', 'macro', 'const', 'dref'):
     return True
   if k == 'non':
     return False
   return spec_representable(spec[2])
+
+
+def innermost(spec):
+  while spec[0] == 'in':
+    spec = spec[2]
+  return spec
+
+
+def has_long_bytes(v):
+  if type(v) is bytes:
+    return len(v) > 7
+  if type(v) in (list, tuple):
+    return any(has_long_bytes(x) for x in v)
+  if type(v) is dict:
+    return any(has_long_bytes(k) or has_long_bytes(x) for k, x in v.items())
+  return False
+
+
+def has_long_str_inside(v, top=True):
+  if type(v) is str:
+    return not top and len(v) > 60
+  if type(v) in (list, tuple):
+    return any(has_long_str_inside(x, False) for x in v)
+  if type(v) is dict:
+    return any(has_long_str_inside(k, False) or has_long_str_inside(x, False) for k, x in v.items())
+  return False
 
 
 def spec_feats(spec, out):
@@ -234,10 +367,31 @@ def spec_feats(spec, out):
       out.add('value:nested')
     if 'complex' in gen.kinds_in(spec[1]):
       out.add('value:complex')
+    if has_long_bytes(spec[1]):
+      out.add('value:long-bytes')
+    if has_long_str_inside(spec[1]):
+      out.add('value:long-string-in-container')
   elif k == 'ref':
     out.add('value:reference')
+    if spec[1] in REFS_METHOD:
+      out.add('value:reference-to-method')
+    elif spec[1] in REFS_CLASS:
+      out.add('value:reference-to-class')
+    elif spec[1] in REFS_SINGLETON:
+      out.add('value:reference-to-singleton')
   elif k == 'macro':
     out.add('value:macro-ref')
+  elif k == 'const':
+    if spec[1] == 'gin.REQUIRED':
+      out.add('value:gin-required-reference')
+    else:
+      out.add('value:constant')
+      if spec[1].endswith('C6KONST'):
+        out.add('value:constant-base-name-shared-by-two')
+      if not spec[1].startswith('c6k.'):
+        out.add('value:constant-partial-spelling')
+  elif k == 'dref':
+    out.add('dyn:reference')
   elif k == 'non':
     out.add(NONLIT_BUCKET[spec[1]])
   else:
@@ -250,28 +404,84 @@ def target_selector(tgt):
     return _S['method'].selector
   if tgt == 'METHOD2':
     return _S['method2'].selector
+  if tgt == 'SINGLETON':
+    return 'gin.singleton'
   return tgt
 
 
-def apply_items(gin, case, order, use_text, cache):
+def statement_text(kind, key, txt):
+  if kind == 'm':
+    return '%s = %s' % (key, txt)
+  scope, tgt, prm = key
+  return '%s%s.%s = %s' % (scope + '/' if scope else '', target_selector(tgt), prm, txt)
+
+
+def bind_one(gin, kind, key, spec, as_text, cache):
+  txt = text_of(spec)
+  if as_text and txt is not None:
+    gin.parse_config(statement_text(kind, key, txt))
+  elif kind == 'm':
+    gin.bind_parameter((key, 'gin.macro', 'value'), value_of(spec, cache))
+  else:
+    gin.bind_parameter((key[0], target_selector(key[1]), key[2]), value_of(spec, cache))
+
+
+def build_ops(case, perm):
+  """The binding history of one permutation: every item once in the permuted order, plus, for the keys of case['pre'], an earlier
+  binding of the same key to another value at a random point before it."""
+  order, use_text = perm[0], perm[1]
+  pre_at = perm[2] if len(perm) > 2 else [0.0] * len(order)
+  ops = [['final', pos, use_text[idx]] for idx, pos in enumerate(order)]
+  for pos_s in sorted(case.get('pre') or {}, key=int):
+    pos = int(pos_s)
+    j = [i for i, o in enumerate(ops) if o[0] == 'final' and o[1] == pos][0]
+    ops.insert(min(int(pre_at[pos] * (j + 1)), j), ['pre', pos, (pre_at[pos] * 7) % 1 < 0.5])
+  return ops
+
+
+def apply_items(gin, case, perm, cache):
   for stmt in case['imports']:
     gin.parse_config(stmt)
-  for idx, pos in enumerate(order):
+  for what, pos, as_text in build_ops(case, perm):
     kind, key, spec = case['items'][pos]
-    val = value_of(spec, cache)
-    txt = text_of(spec)
-    if kind == 'm':
-      if use_text[idx] and txt is not None:
-        gin.parse_config('%s = %s' % (key, txt))
-      else:
-        gin.bind_parameter((key, 'gin.macro', 'value'), val)
-    else:
-      scope, tgt, prm = key
-      sel = target_selector(tgt)
-      if use_text[idx] and txt is not None:
-        gin.parse_config('%s%s.%s = %s' % (scope + '/' if scope else '', sel, prm, txt))
-      else:
-        gin.bind_parameter((scope, sel, prm), val)
+    if what == 'pre':
+      spec = case['pre'][str(pos)]
+    bind_one(gin, kind, key, spec, as_text, cache)
+
+
+def import_form(stmt):
+  """(module, is_from, alias) of an import statement text, by this file's own reading of the four forms."""
+  w = stmt.split()
+  alias = w[-1] if len(w) > 2 and w[-2] == 'as' else None
+  if w[0] == 'from':
+    return (w[1] + '.' + w[3], True, alias)
+  return (w[1], False, alias)
+
+
+def bound_name(form):
+  module, is_from, alias = form
+  return alias or (module.split('.')[-1] if is_from else module.split('.')[0])
+
+
+def check_import_forms(ctx, before, after, allowed_extra=(), bucket='imports:form-compared'):
+  """`before`/`after`: collections of (module, is_from, alias).  The library may keep one of several recorded forms of a module and re-alias a
+  statement whose bound name collides with another module's; a module recorded without such a collision must keep one of its recorded forms."""
+  before, after = set(before), set(after)
+  mods_b, mods_a = {f[0] for f in before}, {f[0] for f in after}
+  ok = ctx.check(mods_b <= mods_a and (allowed_extra is None or mods_a - mods_b <= set(allowed_extra)), 'imports-not-preserved',
+                 'recorded import modules before %r after %r' % (sorted(mods_b), sorted(mods_a)))
+  names = {}
+  for f in before:
+    names.setdefault(bound_name(f), set()).add(f[0])
+  for m in sorted(mods_b & mods_a):
+    forms_b = {f for f in before if f[0] == m}
+    if any(len(names[bound_name(f)]) > 1 for f in forms_b):
+      continue     # its bound name is also bound by another module's statement: re-aliasing is the library's business
+    forms_a = {f for f in after if f[0] == m}
+    ctx.bucket(bucket)
+    ok = ctx.check(forms_a <= forms_b, 'import-statement-form-not-preserved',
+                   'module %s was recorded as %r; after the round trip it is recorded as %r' % (m, sorted(forms_b, key=repr), sorted(forms_a, key=repr))) and ok
+  return ok
 
 
 def run_case(ctx, case):
@@ -279,6 +489,8 @@ def run_case(ctx, case):
   from gin import config as gc
   if 'late_registration' in case:
     return run_late_registration(ctx, case)
+  if 'dyn2' in case:
+    return run_dyn2(ctx, case['dyn2'])
   if 'dynamic' in case:
     from vf.checks import c19
     if 'tree' not in c19._S:
@@ -288,6 +500,7 @@ def run_case(ctx, case):
     ctx.params.setdefault('fresh_process_every', 10 ** 9)
     c19.run_bindings(ctx, case['dynamic'])
     return
+  ensure_consts()
   mll, ci = case['mll'], case['ci']
   cache = {}
   feats = set()
@@ -305,6 +518,10 @@ def run_case(ctx, case):
     feats.add('name:module-qualified-needed')
   if 'METHOD' in tg:
     feats.add('name:method')
+  if 'c6.m2.C6Cls' in tg:
+    feats.add('name:class-target')
+  if 'SINGLETON' in tg:
+    feats.add('name:singleton-target')
   ms = {k[1] for k in case['items'] if k[0] == 'm'}
   if {'c6mac', 'C6MAC'} <= ms:
     feats.add('name:case-variant-macro')
@@ -319,14 +536,25 @@ def run_case(ctx, case):
       feats.add('imports:alias')
   if len(case['perms']) >= 3:
     feats.add('perm:3+')
+  for pos_s, pspec in (case.get('pre') or {}).items():
+    feats.add('history:rebound-key')
+    now, was = spec_representable(case['items'][int(pos_s)][2]), spec_representable(pspec)
+    if now and not was:
+      feats.add('history:rebound-representable-after-nonrepresentable')
+    if was and not now:
+      feats.add('history:rebound-nonrepresentable-after-representable')
+    if pspec[0] == 'lit' and case['items'][int(pos_s)][2][0] == 'lit' and any(
+        canon(a) == canon(pspec[1]) and canon(b) == canon(case['items'][int(pos_s)][2][1]) for a, b in EQUAL_TWINS):
+      feats.add('history:rebound-equal-value-of-another-type')
   for f in feats:
     ctx.bucket(f)
   ctx.fp(tuple(sorted(feats)), len(case['items']), mll, ci, len(case['imports']))
 
   texts = []
-  for order, use_text in case['perms']:
+  for perm in case['perms']:
+    use_text = perm[1]
     gin.clear_config()
-    apply_items(gin, case, order, use_text, cache)
+    apply_items(gin, case, perm, cache)
     ctx.bucket('api:text' if any(use_text) else 'api:bind_parameter')
     ctx.bucket('api:bind_parameter' if not all(use_text) else 'api:text')
     try:
@@ -354,24 +582,58 @@ def run_case(ctx, case):
     ctx.bucket('wrapped:continuation-line')
 
   # (c) ordering inside the text
-  headers = [HDR.match(l).group(1) for l in s.splitlines() if HDR.match(l)]
-  names = []
-  for h in headers:
+  def section_name(h):
     sel = h.rpartition('/')[2]
     try:
       ent = gc._REGISTRY.get_match(sel)
     except KeyError:
       ent = None
-    if not ctx.check(ent is not None, 'header-does-not-resolve', 'section header %r does not resolve uniquely' % h):
-      return
+    if ent is None:
+      return None
     full = ent.selector.split('.')
-    names.append(('.'.join(full[-2:]) if ent.is_method else full[-1]).lower())
+    return ('.'.join(full[-2:]) if ent.is_method else full[-1]).lower()
+  if not check_structure(ctx, gin, s, section_name):
+    return
+
+  # (a) round trip
+  imports_before = [import_form(i) for i in case['imports']]
+  exp, optional = {}, {}
+  for kind, key, spec in case['items']:
+    k = (key, 'gin.macro', 'value') if kind == 'm' else (key[0], target_selector(key[1]), key[2])
+    if spec == ['non', 'gin-required-object']:
+      # gin.REQUIRED itself, bound programmatically: whether its literal form is "none" or `%gin.REQUIRED` is not pinned down
+      optional[k] = canon(gc.parse_value('%gin.REQUIRED'))
+      continue
+    if not spec_representable(spec):
+      ctx.bucket('omitted:nonrepresentable')
+      continue
+    exp[k] = canon(value_of(spec, cache), ordered=False)
+  if not roundtrip(ctx, gin, gc, s, mll, ci, exp, optional, case, 'roundtrips'):
+    return
+  check_import_forms(ctx, imports_before, [(st.module, st.is_from, st.alias) for st in gc._IMPORTS])
+  if case.get('via_file'):
+    run_via_files(ctx, gin, gc, case, cache, exp, optional, texts[0])
+
+
+def check_structure(ctx, gin, s, section_name):
+  """(c) sections grouped alphabetically, parameters sorted inside a section; (d) markdown keeps the binding lines.
+  section_name(header) -> the case-folded innermost name of the configurable a header names, None if it names nothing known,
+  '' if its place in the order is not pinned down."""
+  headers = [HDR.match(l).group(1) for l in s.splitlines() if HDR.match(l)]
+  names = []
+  for h in headers:
+    nm = section_name(h)
+    if not ctx.check(nm is not None, 'header-does-not-resolve', 'section header %r does not resolve uniquely' % h):
+      return False
+    if nm:
+      names.append(nm)
   ctx.check(names == sorted(names), 'sections-not-alphabetical', 'sections not grouped alphabetically by innermost name: %r' % names)
+  ctx.check(len(set(headers)) == len(headers), 'configurable-split-over-sections', 'a section header occurs twice: %r' % headers)
   # parameters sorted within each section (statement order as read back by the real parser)
   try:
     _, _, _, order = snap.parse_text(s)
   except Exception:  # pylint: disable=broad-except
-    order = []  # unparseable text is reported by the round-trip oracle below
+    order = []  # unparseable text is reported by the round-trip oracle
   groups = []
   for (sc, sel, arg) in order:
     if not arg:
@@ -382,11 +644,13 @@ def run_case(ctx, case):
       groups.append(((sc, sel), [arg]))
   for key, args in groups:
     ctx.check(args == sorted(args), 'parameters-not-sorted', 'section %r lists parameters %r' % (key, args))
+  ctx.check(len({k for k, _ in groups}) == len(groups), 'configurable-split-over-sections', 'the bindings of one configurable are not contiguous: %r' % [k for k, _ in groups])
 
   # (d) markdown keeps every binding line verbatim, in order
   md = gin.config.markdown(s).splitlines()
   pos = 0
   ok = True
+  l = ''
   for l in s.splitlines():
     if l.startswith('#') or not l.strip():
       continue
@@ -398,58 +662,459 @@ def run_case(ctx, case):
       break
   ctx.count('markdown_checked')
   ctx.check(ok, 'markdown-drops-binding-line', 'markdown() lost or reordered line %r' % (l,))
+  return True
 
-  # (a) round trip
-  imports_before = sorted({st.module for st in gc._IMPORTS})
-  exp = {}
-  for kind, key, spec in case['items']:
-    if not spec_representable(spec):
-      ctx.bucket('omitted:nonrepresentable')
-      continue
-    v = value_of(spec, cache)
-    if kind == 'm':
-      exp[(key, 'gin.macro', 'value')] = canon(v, ordered=False)
-    else:
-      exp[(key[0], target_selector(key[1]), key[2])] = canon(v, ordered=False)
+
+def reserialisation_key(s, s2, specs, base='reserialisation-differs'):
+  """Mechanism key for `s2 != s`: the two recorded findings are recognised by their narrow shapes only."""
+  t2 = s2.split('\n')
+  while t2 and t2[-1] == '':
+    t2.pop()
+  a, b = '\n'.join(strip_none_sections(s)), '\n'.join(t2)
+  if a == b and '# None.' in s:
+    return 'empty-section-of-nonrepresentable-only-bindings-not-reproduced'
+  if only_line_order_differs(a, b) and any(sp[0] == 'lit' and has_unorderable_dict(sp[1]) for sp in specs):
+    return 'dict-with-unorderable-keys-printed-in-object-id-order'
+  return base
+
+
+def roundtrip(ctx, gin, gc, s, mll, ci, exp, optional, case, counter, sel_key=None, label=''):
+  """Parse `s` into a cleared configuration: it must parse, restore exactly `exp` (+ possibly `optional`), and serialise to `s` again."""
+  specs = [sp for _, _, sp in flat_specs(case)]
   gin.clear_config()
   try:
     gin.parse_config(s)
   except Exception as e:  # pylint: disable=broad-except
     nonlit_macro = any(k == 'm' and not spec_representable(sp) for k, _, sp in case['items'])
-    ctx.check(False, 'config-str-does-not-parse' + (':nonliteral-macro-emitted' if nonlit_macro and 'Macros' in s else ''),
+    ctx.check(False, label + 'config-str-does-not-parse' + (':nonliteral-macro-emitted' if nonlit_macro and 'Macros' in s else ''),
               'parse_config(config_str()) failed with %s: %s\n%s' % (type(e).__name__, str(e)[:300], s[:1200]))
-    return
-  ctx.count('roundtrips')
+    return False
+  ctx.count(counter)
   ctx.bucket('roundtrip:done')
   got = {}
   for (sc, sel), d in gc._CONFIG.items():
     for prm, v in d.items():
-      got[(sc, sel, prm)] = canon(v, ordered=False)
+      got[(sc, sel_key(sel) if sel_key else sel, prm)] = canon(v, ordered=False)
+  for k, v in optional.items():
+    if got.get(k) == v:
+      del got[k]
   if got != exp:
     d = snap.diff(got, exp)
-    ctx.check(False, 'roundtrip-differs', 'after re-parsing config_str (restored, expected representable subset): %r' % ({k: d[k] for k in list(d)[:5]},), {'text': s[:1500]})
+    ctx.check(False, label + 'roundtrip-differs', 'after re-parsing config_str (restored, expected representable subset): %r' % ({k: d[k] for k in list(d)[:5]},), {'text': s[:1500]})
   else:
     ctx.count('oracle_evals')
-  ctx.check(sorted({st.module for st in gc._IMPORTS}) == imports_before, 'imports-not-preserved',
-            'recorded import modules before %r after %r' % (imports_before, sorted({st.module for st in gc._IMPORTS})))
   try:
     s2 = gin.config_str(mll, ci)
   except Exception as e:  # pylint: disable=broad-except
     ctx.check(False, 'config-str-raises', 'config_str after round trip raised %r' % (e,))
-    return
+    return False
   if s2 != s:
-    key = 'reserialisation-differs'
-    t2 = s2.split('\n')
-    while t2 and t2[-1] == '':
-      t2.pop()
-    a, b = '\n'.join(strip_none_sections(s)), '\n'.join(t2)
-    if a == b and '# None.' in s:
-      key = 'empty-section-of-nonrepresentable-only-bindings-not-reproduced'
-    elif only_line_order_differs(a, b) and case_has_unorderable_dict(case):
-      key = 'dict-with-unorderable-keys-printed-in-object-id-order'
-    ctx.check(False, key, 'serialising again after the round trip differs:\n%s\n---\n%s' % (s[:800], s2[:800]))
+    ctx.check(False, reserialisation_key(s, s2, specs, label + 'reserialisation-differs'), 'serialising again after the round trip differs:\n%s\n---\n%s' % (s[:800], s2[:800]))
   else:
     ctx.count('oracle_evals')
+  return True
+
+
+# ---------------------------------------------------------------------------------------------------------------------------------
+# files, include, provenance comments
+
+
+def scratch_dir():
+  if 'tmp' not in _S:
+    _S['tmp'] = tempfile.mkdtemp(prefix='vf-c06-')
+    atexit.register(shutil.rmtree, _S['tmp'], True)
+  return _S['tmp']
+
+
+def run_via_files(ctx, gin, gc, case, cache, exp, optional, s_ref):
+  """The same binding set read with parse_config_file from a file that includes another one (the rest bound programmatically): the text is
+  the same; with show_provenance=True the text (now carrying `# Set in file:line:` comments) still parses to the same configuration."""
+  mll, ci = case['mll'], case['ci']
+  vf = case['via_file']
+  d = scratch_dir()
+  inc_path = os.path.join(d, 'inc_%s_%d.gin' % (ctx.uid, ctx.case_no))
+  main_path = os.path.join(d, 'main_%s_%d.gin' % (ctx.uid, ctx.case_no))
+  inc_lines, main_lines, prog = [], [], []
+  for pos, (kind, key, spec) in enumerate(case['items']):
+    txt = text_of(spec)
+    if txt is None:
+      prog.append(pos)
+    else:
+      (inc_lines if vf['in_include'][pos] else main_lines).append(statement_text(kind, key, txt))
+  main_lines.insert(int(vf['inc_at'] * (len(main_lines) + 1)), "include '%s'" % inc_path)
+  with open(inc_path, 'w', encoding='utf-8') as f:
+    f.write('\n'.join(inc_lines) + '\n')
+  with open(main_path, 'w', encoding='utf-8') as f:
+    f.write('\n'.join(list(case['imports']) + main_lines) + '\n')
+  ctx.bucket('api:parse_config_file')
+  ctx.bucket('api:include')
+  gin.clear_config()
+  try:
+    gin.parse_config_file(main_path)
+    for pos in prog:
+      kind, key, spec = case['items'][pos]
+      bind_one(gin, kind, key, spec, False, cache)
+    s_file = gin.config_str(mll, ci)
+    s_prov = gin.config_str(mll, ci, show_provenance=True)
+  except Exception as e:  # pylint: disable=broad-except
+    ctx.check(False, 'config-str-raises', 'reading the binding set from files / config_str(show_provenance=True) raised %s: %s' % (type(e).__name__, str(e)[:300]))
+    return
+  finally:
+    for p in (inc_path, main_path):
+      try:
+        os.unlink(p)
+      except OSError:
+        pass
+  if s_file != s_ref:
+    key = 'text-depends-on-binding-order'
+    if only_line_order_differs(s_ref, s_file) and case_has_unorderable_dict(case):
+      key = 'dict-with-unorderable-keys-printed-in-object-id-order'
+    ctx.check(False, key, 'config_str of the same binding set differs when it is read from files:\n--- bound in the process\n%s\n--- read from files\n%s' % (s_ref[:1200], s_file[:1200]))
+  else:
+    ctx.count('oracle_evals')
+  if '# Set in ' in s_prov:
+    ctx.bucket('provenance:shown')
+  # the text with provenance comments parses and restores the same configuration, whose plain text is the plain text
+  gin.clear_config()
+  try:
+    gin.parse_config(s_prov)
+  except Exception as e:  # pylint: disable=broad-except
+    ctx.check(False, 'provenance-text-does-not-parse', 'parse_config(config_str(show_provenance=True)) failed with %s: %s\n%s' % (type(e).__name__, str(e)[:300], s_prov[:1200]))
+    return
+  ctx.count('provenance_roundtrips')
+  got = {}
+  for (sc, sel), dd in gc._CONFIG.items():
+    for prm, v in dd.items():
+      got[(sc, sel, prm)] = canon(v, ordered=False)
+  for k, v in optional.items():
+    if got.get(k) == v:
+      del got[k]
+  if got != exp:
+    df = snap.diff(got, exp)
+    ctx.check(False, 'provenance-text-roundtrip-differs', 'after re-parsing config_str(show_provenance=True) (restored, expected): %r' % ({k: df[k] for k in list(df)[:5]},), {'text': s_prov[:1500]})
+  else:
+    ctx.count('oracle_evals')
+  s2 = gin.config_str(mll, ci)
+  if s2 != s_file:
+    ctx.check(False, reserialisation_key(s_file, s2, [sp for _, _, sp in flat_specs(case)], 'provenance-text-reserialisation-differs'),
+              'config_str() of what config_str(show_provenance=True) parses to differs from config_str():\n%s\n---\n%s' % (s_file[:800], s2[:800]))
+  else:
+    ctx.count('oracle_evals')
+  md = gin.config.markdown(s_prov).splitlines()
+  missing = [l for l in s_prov.splitlines() if l.strip() and not l.startswith('#') and ('    ' + l) not in md]
+  ctx.check(not missing, 'markdown-drops-binding-line', 'markdown() of the text with provenance comments lost %r' % (missing[:2],))
+  gin.clear_config()
+
+
+# ---------------------------------------------------------------------------------------------------------------------------------
+# dynamic registration crossed with value shapes, binding orders, widths, macros and programmatic bindings (own generator on vf/pkgtree.py)
+
+# objects of a generated package: key -> (module under the package, attribute chain, parameters, case-folded innermost name, kind)
+DOBJ = {
+    'alpha.fa': ('alpha', 'fa', ['x', 'y'], 'fa', 'function'),
+    'alpha.shared': ('alpha', 'shared', ['v'], 'shared', 'function'),
+    'alpha.K': ('alpha', 'K', ['a', 'b'], 'k', 'class'),
+    'alpha.K.meth': ('alpha', 'K.meth', ['m'], 'k.meth', 'method'),
+    'alpha.K.other': ('alpha', 'K.other', ['o'], 'k.other', 'method'),
+    'alpha.K.Inner': ('alpha', 'K.Inner', ['i'], 'inner', 'class'),
+    'alpha.K.Inner.deep': ('alpha', 'K.Inner.deep', ['d'], 'inner.deep', 'method'),
+    'alpha.S': ('alpha', 'S', ['a'], 's', 'class'),
+    'beta.fb': ('beta', 'fb', ['x'], 'fb', 'function'),
+    'beta.shared': ('beta', 'shared', ['v'], 'shared', 'function'),
+    'beta.K': ('beta', 'K', ['a'], 'k', 'class'),
+    'sub.alpha.fa': ('sub.alpha', 'fa', ['x'], 'fa', 'function'),
+    'sub.alpha.Deep': ('sub.alpha', 'Deep', ['q'], 'deep', 'class'),
+    'sub.gamma.fg': ('sub.gamma', 'fg', ['x', 'ref'], 'fg', 'function'),
+}
+# registered statically, by a decorator in their module, under another name than the attribute's: bound programmatically by that name
+DSTATIC = {'alpha.decorated': ('alpha', 'decorated', ['z'], 'custom_%s'), 'alpha.Outer.Nested': ('alpha', 'Outer.Nested', ['n'], 'nested_%s')}
+DALIAS = {'alpha': 'a1', 'beta': 'Zb', 'sub.alpha': 'SA', 'sub.gamma': 'g_'}
+# GENUINE DEFECT of gin (reproducer: /tmp/impl/C06/defect_1.py), switched off so that the run is not dominated by it: under dynamic registration
+# the statement `mod.K.meth.m = @mod.K` (a method's parameter bound to a reference to the method's own class), when it is the first to name the
+# method, stores a reference to the registration of K that naming the method has just replaced; the reference compares unequal to its own re-parse,
+# so config_str() omits the binding (`# None.`) and the text depends on the order of first use.  True = generate such statements.
+ENABLE_DYN_REFERENCE_TO_OWN_CLASS_IN_METHOD_BINDING = False
+# GENUINE DEFECT of gin (reproducer: /tmp/impl/C06/defect_2.py), switched off likewise: with three or more plain imports of modules of one package
+# (`import P.alpha`, `import P.sub.alpha`, `import P.sub.gamma`) config_str() adds synthetic imports (`import P`, `import P.sub`) whose numbered
+# aliases (P4, P5) are assigned in the order the bindings were made: the text depends on the binding order.  True = generate three or more.
+ENABLE_DYN_THREE_PLAIN_IMPORTS_OF_ONE_PACKAGE = False
+
+
+def dyn_import(pk, mod, form):
+  """-> (statement text, spelling prefix of the module's attributes, (module, is_from, alias))"""
+  full = pk + '.' + mod
+  parent, leaf = full.rsplit('.', 1)
+  al = DALIAS[mod]
+  if form == 0:
+    return 'import ' + full, full, (full, False, None)
+  if form == 1:
+    return 'import %s as %s' % (full, al), al, (full, False, al)
+  if form == 2:
+    return 'from %s import %s' % (parent, leaf), leaf, (full, True, None)
+  return 'from %s import %s as %sf' % (parent, leaf, al), al + 'f', (full, True, al + 'f')
+
+
+def gen_dval(rng, depth=0, pool=None):
+  r = rng.random()
+  if r < 0.4:
+    v = gen.gen_value(rng, depth=rng.choice([0, 1, 2]))
+    q = rng.random()
+    if q < 0.15:
+      v = ' '.join(rng.choice(WORDS) for _ in range(rng.choice([12, 30])))
+    elif q < 0.3:
+      v = gen_long(rng)
+    return ['lit', v]
+  if r < 0.58:
+    return ['dref', rng.choice(['', '', 'rs', 'a/rs']), rng.choice(pool or sorted(DOBJ)), rng.random() < 0.5]
+  if r < 0.68:
+    return ['macro', rng.choice(['d6mac', 'D6MAC', 'sc/d6mac'])]
+  if r < 0.73:
+    return ['const', rng.choice(CONST_SPELLINGS)]
+  if r < 0.9 or depth > 1:
+    return ['non', rng.choice(sorted(NONLIT))]
+  return ['in', rng.choice(['list', 'tuple', 'dict']), gen_dval(rng, depth + 1, pool)]
+
+
+def gen_dyn2(rng):
+  binds = {}
+  # sometimes the text never mentions module alpha, whose decorator-registered configurables are then bound programmatically
+  no_alpha = rng.random() < 0.2
+  pool = [k for k in sorted(DOBJ) if not (no_alpha and DOBJ[k][0] == 'alpha')]
+  for _ in range(rng.choice([2, 3, 5, 8])):
+    obj = rng.choice(pool)
+    binds[(rng.choice(['', '', 'sc', 'Sc', 'a/b']), obj, rng.choice(DOBJ[obj][2]))] = gen_dval(rng, 0, pool)
+  # an object all of whose bindings have no text form gets one that has (in a scope of its own): the object must be named by the text once
+  for obj in sorted({k[1] for k in binds}):
+    if not any(spec_representable(v) and 'dref' != innermost(v)[0] for k, v in binds.items() if k[1] == obj):
+      binds[('anc', obj, DOBJ[obj][2][0])] = ['lit', rng.randrange(100)]
+  if not ENABLE_DYN_REFERENCE_TO_OWN_CLASS_IN_METHOD_BINDING:
+    for (scope, obj, prm), v in binds.items():
+      sp = innermost(v)
+      if DOBJ[obj][4] == 'method' and sp[0] == 'dref' and sp[2] == obj.rpartition('.')[0]:
+        sp[2] = 'beta.fb'
+  macros = {m: gen_dval(rng, 0, pool) for m in rng.sample(['d6mac', 'D6MAC', 'sc/d6mac', 'd6other'], rng.choice([0, 1, 2]))}
+  items = [['b', list(k), v] for k, v in binds.items()] + [['m', k, v] for k, v in macros.items()]
+  static = []
+  if no_alpha or rng.random() < 0.35:
+    for name in rng.sample(sorted(DSTATIC), rng.choice([1, 2])):
+      static.append([rng.choice(['', 'sc']), name, DSTATIC[name][2][0], gen_dval(rng, 0, pool)])
+  used = {DOBJ[k[1][1]][0] for k in items if k[0] == 'b'}
+  for sp in [innermost(it[2]) for it in items] + [innermost(st[3]) for st in static]:
+    if sp[0] == 'dref':
+      used.add(DOBJ[sp[2]][0])
+  forms = {}
+  for mod in sorted(DALIAS):
+    if mod in used or (rng.random() < 0.3 and not (no_alpha and mod == 'alpha')):
+      forms[mod] = rng.randrange(4)
+  if forms.get('alpha') == 2 and forms.get('sub.alpha') == 2:
+    forms['sub.alpha'] = 3      # both would bind the name `alpha`
+  if not ENABLE_DYN_THREE_PLAIN_IMPORTS_OF_ONE_PACKAGE:
+    for mod in [m for m in sorted(forms) if forms[m] == 0][2:]:
+      forms[mod] = 1
+  mll = rng.choice([80, 80, 200, 40, 20, 10, 5, 2])
+  ci = rng.choice([c for c in [4, 4, 0, 1, 8, mll - 1] if 0 <= c < mll])
+  perms = []
+  for _ in range(rng.choice([2, 2, 3])):
+    order = list(range(len(items)))
+    rng.shuffle(order)
+    perms.append([order, [rng.random() < 0.6 for _ in items], rng.randrange(4)])
+  return {'items': items, 'static': static, 'forms': forms, 'mll': mll, 'ci': ci, 'perms': perms}
+
+
+def own_tree():
+  if 'own_tree' not in _S:
+    _S['own_tree'] = pkgtree.Tree()
+    atexit.register(_S['own_tree'].cleanup)
+  return _S['own_tree']
+
+
+def resolve_attr(pk, mod, chain):
+  o = importlib.import_module(pk + '.' + mod)
+  for c in chain.split('.'):
+    o = getattr(o, c)
+  return o
+
+
+def run_dyn2(ctx, case):
+  import gin
+  from gin import config as gc
+  ensure_consts()
+  gin.clear_config()
+  pk = own_tree().new_package('c6d')
+  mll, ci = case['mll'], case['ci']
+  items, static = case['items'], case['static']
+  imps = {mod: dyn_import(pk, mod, form) for mod, form in case['forms'].items()}
+  _S['dyn_spelling'] = {k: imps[v[0]][1] + '.' + v[1] for k, v in DOBJ.items() if v[0] in imps}
+  _S['dyn_selector'] = {}
+  cache = {}
+  feats = set()
+  for it in items:
+    spec_feats(it[2], feats)
+    if it[2][0] == 'in':
+      feats.add('dyn:nested-value')
+    if it[0] == 'm':
+      feats.add('dyn:macro')
+    elif DOBJ[it[1][1]][4] == 'method':
+      feats.add('dyn:method')
+    if not spec_representable(it[2]) and it[2] != ['non', 'gin-required-object']:
+      feats.add('dyn:nonrepresentable-omitted')
+  feats.add('dyn:width-tiny' if mll <= 10 else 'dyn:width-other')
+  if ci == 0:
+    feats.add('dyn:indent0')
+  if static:
+    feats.add('dyn:static-configurable-bound-programmatically')
+    if 'alpha' not in imps:
+      feats.add('dyn:static-configurable-module-not-imported-by-text')
+  for f in feats:
+    if f.startswith('dyn:'):
+      ctx.bucket(f)
+  ctx.bucket('registration:dynamic')
+  ctx.fp('dyn2', tuple(sorted(feats)), tuple(sorted(case['forms'].items())), len(items), len(static), mll, ci)
+
+  def textual(spec):
+    return text_of(spec) is not None
+  # per object, the first item with a text form is always written in the text (an object is registered when the text names it)
+  forced = set()
+  seen = set()
+  for pos, it in enumerate(items):
+    if it[0] == 'b' and textual(it[2]) and it[1][1] not in seen and innermost(it[2])[0] != 'dref':
+      seen.add(it[1][1])
+      forced.add(pos)
+    if innermost(it[2])[0] == 'dref':
+      forced.add(pos)         # a reference to a dynamically registered object is written through the file's imports
+
+  def selector_of(objkey):
+    if objkey not in _S['dyn_selector']:
+      mod, chain = DOBJ[objkey][0], DOBJ[objkey][1]
+      ent = gc._inverse_lookup(resolve_attr(pk, mod, chain))
+      if ent is None:
+        return None
+      _S['dyn_selector'][objkey] = ent.selector
+    return _S['dyn_selector'][objkey]
+  _S['dyn_selector_of'] = selector_of
+
+  texts = []
+  for order, flags, rot in case['perms']:
+    gin.clear_config()
+    header = [imps[m][0] for m in sorted(imps)]
+    header = ['from __gin__ import dynamic_registration'] + header[rot % max(1, len(header)):] + header[:rot % max(1, len(header))]
+    lines, prog = [], []
+    for idx, pos in enumerate(order):
+      kind, key, spec = items[pos]
+      if textual(spec) and (pos in forced or flags[idx]):
+        lines.append(statement_text_dyn(kind, key, text_of(spec)))
+      else:
+        prog.append(pos)
+    text = '\n'.join(header + lines) + '\n'
+    ctx.sample({'dyn2_text': text.replace(pk, 'PK')}, cap=2)
+    try:
+      gin.parse_config(text)
+    except Exception as e:  # pylint: disable=broad-except
+      ctx.check(False, 'valid-dynamic-config-rejected', 'parse raised %s: %s\n%s' % (type(e).__name__, str(e)[:300], text.replace(pk, 'PK')))
+      return
+    try:
+      for pos in prog:
+        kind, key, spec = items[pos]
+        ctx.bucket('dyn:programmatic-binding')
+        if kind == 'm':
+          gin.bind_parameter((key, 'gin.macro', 'value'), value_of(spec, cache))
+        else:
+          sel = selector_of(key[1])
+          if sel is None:
+            raise LookupError('object %s is not registered after the text named it' % key[1])
+          gin.bind_parameter((key[0], sel, key[2]), value_of(spec, cache))
+      if static:
+        importlib.import_module(pk + '.alpha')      # runs the decorators (if the text did not import the module already)
+      for scope, name, prm, spec in static:
+        if innermost(spec)[0] == 'dref' and selector_of(innermost(spec)[2]) is None:
+          continue      # a reference to an object the text never named cannot be made programmatically
+        gin.bind_parameter((scope, DSTATIC[name][3] % pk, prm), value_of(spec, cache))
+    except Exception as e:  # pylint: disable=broad-except
+      ctx.check(False, 'programmatic-binding-after-dynamic-parse-rejected', 'bind_parameter after a dynamic-registration parse raised %s: %s\n%s' % (
+          type(e).__name__, str(e)[:300].replace(pk, 'PK'), text.replace(pk, 'PK')))
+      return
+    try:
+      texts.append(gin.config_str(mll, ci))
+    except Exception as e:  # pylint: disable=broad-except
+      ctx.check(False, 'config-str-raises', 'dynamic registration: config_str(%d, %d) raised %s: %s\n%s' % (mll, ci, type(e).__name__, str(e)[:300].replace(pk, 'PK'), text.replace(pk, 'PK')))
+      return
+  specs = [innermost(it[2]) for it in items] + [innermost(st[3]) for st in static]
+  unorderable = any(sp[0] == 'lit' and has_unorderable_dict(sp[1]) for sp in specs)
+  ctx.count('permutations_compared')
+  ctx.bucket('dyn:orders-compared')
+  for i in range(1, len(texts)):
+    if texts[i] != texts[0]:
+      key = 'text-depends-on-binding-order'
+      if unorderable and only_line_order_differs(texts[0], texts[i]):
+        key = 'dict-with-unorderable-keys-printed-in-object-id-order'
+      ctx.check(False, key, 'dynamic registration: config_str differs between two orders of the same binding set:\n--- order A\n%s\n--- order B\n%s' %
+                (texts[0][:1200].replace(pk, 'PK'), texts[i][:1200].replace(pk, 'PK')))
+      break
+  else:
+    ctx.count('oracle_evals')
+  s = texts[-1]
+
+  # which object a section header / a selector of the store names (through the imports the text itself carries)
+  try:
+    _, s_imports, _, _ = snap.parse_text(s)
+  except Exception:  # pylint: disable=broad-except
+    s_imports = []
+  prefixes = {}
+  for module, is_from, alias in s_imports:
+    prefixes[alias or (module.rsplit('.', 1)[-1] if is_from else module)] = module
+  by_path = {pk + '.' + v[0] + '.' + v[1]: k for k, v in list(DOBJ.items()) + list(DSTATIC.items())}
+
+  def object_of_spelling(sel):
+    best = None
+    for p in prefixes:
+      if sel.startswith(p + '.') and (best is None or len(p) > len(best)):
+        best = p
+    return by_path.get(prefixes[best] + sel[len(best):]) if best else None
+
+  def section_name(h):
+    k = object_of_spelling(h.rpartition('/')[2])
+    if k is None:
+      return None
+    return '' if k in DSTATIC else DOBJ[k][3]      # printed under one name, registered under another: its place is not pinned down
+  if not check_structure(ctx, gin, s, section_name):
+    return
+
+  # round trip against the model
+  exp, optional = {}, {}
+  for kind, key, spec in items:
+    k = (key, 'gin.macro', 'value') if kind == 'm' else (key[0], key[1], key[2])
+    if spec == ['non', 'gin-required-object']:
+      optional[k] = canon(gc.parse_value('%gin.REQUIRED'))
+    elif spec_representable(spec):
+      exp[k] = canon(value_of(spec, cache), ordered=False)
+  for scope, name, prm, spec in static:
+    if innermost(spec)[0] == 'dref' and selector_of(innermost(spec)[2]) is None:
+      continue
+    if spec == ['non', 'gin-required-object']:
+      optional[(scope, name, prm)] = canon(gc.parse_value('%gin.REQUIRED'))
+    elif spec_representable(spec):
+      exp[(scope, name, prm)] = canon(value_of(spec, cache), ordered=False)
+  sel2key = {'gin.macro': 'gin.macro'}
+  for k in DOBJ:
+    if k in _S['dyn_spelling'] and selector_of(k):
+      sel2key[selector_of(k)] = k
+  for name, v in DSTATIC.items():
+    sel2key['%s.%s.%s' % (pk, v[0], v[3] % pk)] = name
+  fake = {'items': [[it[0], it[1], it[2]] for it in items] + [['b', [st[0], st[1], st[2]], st[3]] for st in static]}
+  ctx.bucket('dyn:roundtrip')
+  if not roundtrip(ctx, gin, gc, s, mll, ci, exp, optional, fake, 'dyn_roundtrips', sel_key=lambda sel: sel2key.get(sel, ('unknown selector', sel))):
+    return
+  # (under dynamic registration the text may carry further imports, for what it mentions: "restores the recorded imports" is what is demanded)
+  before = [v[2] for v in imps.values()] + [('__gin__.dynamic_registration', True, None)]
+  check_import_forms(ctx, before, [(st.module, st.is_from, st.alias) for st in gc._IMPORTS], allowed_extra=None, bucket='dyn:imports-form-compared')
+  gin.clear_config()
+
+
+def statement_text_dyn(kind, key, txt):
+  if kind == 'm':
+    return '%s = %s' % (key, txt)
+  scope, obj, prm = key
+  return '%s%s.%s = %s' % (scope + '/' if scope else '', _S['dyn_spelling'][obj], prm, txt)
 
 
 def run_late_registration(ctx, case):
@@ -458,7 +1123,7 @@ def run_late_registration(ctx, case):
   from gin import config as gc
   gin.clear_config()
   ctx.bucket('history:registration-after-config_str')
-  name = 'c6late%d_%s' % (case['late_registration'] % 100000, ctx.uid)
+  name = 'c6late%d_%d_%s' % (case['late_registration'] % 100000, ctx.case_no, ctx.uid)
 
   def mk(tag):
     def fn(x=0):
@@ -492,6 +1157,10 @@ def finish(ctx):
   from vf.checks import c19
   if 'tree' in c19._S:
     c19._S['tree'].cleanup()
+  if 'own_tree' in _S:
+    _S.pop('own_tree').cleanup()
+  if 'tmp' in _S:
+    shutil.rmtree(_S.pop('tmp'), ignore_errors=True)
 
 
 def strip_none_sections(text):
@@ -551,11 +1220,16 @@ def flat_specs(case):
   return out
 
 
-LEVEL_TEXT = ('Runtime metamorphic monitor over pairs of executions: the same generated binding set is applied in 2-4 orders (text and programmatic), '
-              'config_str(w, ci) must be identical across orders, must parse on a cleared configuration restoring exactly the representable subset '
-              '(own classifier, typed equality), must be reproduced by re-serialisation, must keep sections/parameters sorted and markdown() must keep '
-              'every binding line; hostile values include objects whose repr looks like references, unbalanced brackets or strings.')
-LEVEL_NOTE = ('Trusted: own representability classifier and typed equality (dict order ignored: pprint sorts keys). Dynamic-registration round trips are in C19. '
-              'Objects that compare equal to a literal of another type are not generated.')
+LEVEL_TEXT = ('Runtime metamorphic monitor over pairs of executions: the same generated binding set is applied in 2-4 orders (text and programmatic, some keys '
+              're-bound, once more from a file including another file), with and without dynamic registration (own generator on a generated package, and the '
+              'machinery of C19); config_str(w, ci) must be identical across orders, must parse on a cleared configuration restoring exactly the representable '
+              'subset (own classifier, typed equality) and the recorded import statements, must be reproduced by re-serialisation, must keep sections/parameters '
+              'sorted and markdown() must keep every binding line; the text with provenance comments must parse to the same configuration; hostile values '
+              'include objects whose repr looks like references, unbalanced brackets or strings.')
+LEVEL_NOTE = ('Trusted: own representability classifier and typed equality (dict order ignored: pprint sorts keys); under dynamic registration the selector an '
+              'object is registered under is read from gin (_inverse_lookup) to bind programmatically and to map the restored store onto the model. Two genuine '
+              'defects found by the dynamic-registration generator are switched off by the ENABLE_DYN_* constants (see their comments). Whether the gin.REQUIRED '
+              'object bound programmatically is omitted or printed as %gin.REQUIRED is not asserted. Objects that compare equal to a literal of another type '
+              'are not generated.')
 TECHNIQUE = 'runtime metamorphic monitor (permutation vs permutation, text vs re-parse vs re-serialisation) with hostile non-literal values'
 DESIGN_REF = 'DESIGN.md section 4, C06'
